@@ -576,7 +576,12 @@ impl<'a> G<'a> {
                 let body = self.expr(2, &ps);
                 self.nfn = saved;
                 self.fn_arity[k] = ar;
-                out.push(Line { label: labels[i], sts: vec![St::Def(k, ps, body)] });
+                let mut sts = vec![St::Def(k, ps.clone(), body)];
+                if self.rng.chance(1, 3) {
+                    let pv = self.rng.pick(&ps).clone();
+                    sts.push(St::Print(vec![Item::E(E::V(pv)), Item::E(self.expr(2, &[]))], false));
+                }
+                out.push(Line { label: labels[i], sts });
             } else if kind == 4 && self.rng.chance(1, 3) {
                 out.push(Line { label: labels[i], sts: vec![St::Rem("note: GOTO 10".into(), self.rng.coin())] });
             } else {
@@ -633,7 +638,17 @@ pub fn generate(rng: &mut Rng, o: Opts) -> Prog {
             let body = g.expr(3, &ps);
             g.fn_arity.push(ar);
             let l = g.label();
-            lines.push(Line { label: l, sts: vec![St::Def(k, ps, body)] });
+            let mut sts = vec![St::Def(k, ps.clone(), body)];
+            if g.rng.chance(1, 3) {
+                // more statements behind the DEF on its line: the parameter names mean the program's own
+                // variables again
+                g.nfn = k + 1;
+                let pv = g.rng.pick(&ps).clone();
+                let e = g.expr(1, &[]);
+                sts.push(St::Let(pv.clone(), E::Bin(Box::new(e), "MOD", Box::new(E::N(7))), false));
+                sts.push(St::Print(vec![Item::E(E::V(pv.clone())), Item::E(g.expr(2, &[])), Item::E(E::V(pv))], false));
+            }
+            lines.push(Line { label: l, sts });
         }
         g.nfn = nf;
     }
